@@ -5,9 +5,42 @@ ROOT = os.path.dirname(os.path.dirname(os.path.abspath(__file__)))
 
 # id -> (category, technique, level text, level note, design ref)
 CHECKS = {
+ "C01": ("exploration", "exhaustive counting monitor: all 2^32 raw words through the real bounded draw per panel bound (scripted crypto/rand.Reader), plus boundary-probe scout with escalation",
+         "For each bound of a panel all 2^32 raw words are fed to the real randomUint32n and counted per alternative (equal counts, >half accepted, results < n); thousands of further bounds are probed at boundary words, model deviations are escalated to an exhaustive count. Exhaustive in the raw word, sampled in the bound.",
+         "Trusts Go 1.23's crypto/rand.Read = io.ReadFull(rand.Reader) (GOTOOLCHAIN=local) and the verif wrapper VerifRandomUint32n being a plain call of randomUint32n.", "4/C01"),
  "C02": ("exploration", "execution-tree explorer over the real Generate under a scripted entropy tape; exact output masses vs brute-force reference set; slice monitors",
          "Exact output distribution of the real CharRecipe.Generate observed over the complete decision tree of draw indices for hundreds (quick) / thousands (thorough) of small hostile recipes, compared with an independent enumeration of the valid strings; realistic recipes are covered by slices that force every alphabet index at every position. Sampled in the recipe, exhaustive in the random stream within each explored cell.",
          "Modulo C01 (each bounded draw uniform). Trusts the verif hook that sorts the production alphabet in place, the tape's learned index->word table (learned by observing the real bounded draw), and the reference semantics in harness/oracle.", "4/C02"),
+ "C03": ("exploration", "online assertion of every generated password and Alphabet() against a reference recipe semantics; forced-index scripts, tree leaves, OS randomness",
+         "Every password from every leaf of the small-recipe trees, from class-flag triples (2048 quick / all 32768 thorough) driven with scripts forcing every alphabet index, and from OS randomness is checked against reference semantics; Alphabet() compared with the reference and with the characters actually observed.",
+         "Reference semantics from the field documentation (harness/oracle). Characters are code points.", "4/C03"),
+ "C04": ("exploration", "execution-tree explorer over the real WLRecipe.Generate; exact joint distribution vs documented product law; bijection slices through large lists",
+         "Exact joint distribution of tokens over complete decision trees of small wordlist recipes compared with the product of uniform word draws, the scheme's capitalisation law and the separator function's measured distribution; large lists (AgileWords, AgileSyllables, 1000-20000 words) are slice-checked: every word index at every position.",
+         "Modulo C01; premise of the property (no two kept words share a title form) enforced by the generator/filter.", "4/C04"),
+ "C05": ("exploration", "online structural assertion on every wordlist password (tree leaves, forced boundary scripts, OS randomness) with recorded separator-function returns",
+         "Tokens/String/Atoms/Separators of every observed wordlist password are checked against kept words, scheme positions and the separators the function actually returned.",
+         "Separator returns recorded by a wrapper around the real function; strings.Title as the title-casing. One open known finding (lists containing the empty string).", "4/C05"),
+ "C06": ("exploration", "execution-tree explorer: exact probability of every output vs 2^-Entropy(); Password.Entropy compared bitwise on every leaf",
+         "For hundreds/thousands of small recipes of both kinds the exact mass of every output is compared with the reported entropy (bound, and equality with the min-entropy on resolved trees).",
+         "Modulo C01; tolerance 4 float32 ulps + 1e-6 bits. One open known finding (lists containing the empty string).", "4/C06"),
+ "C07": ("exploration", "reference-model monitor: arbitrary-precision inclusion-exclusion (cross-checked by brute force) vs the exact integer (hook) and Entropy(), five calls each",
+         "Tens of thousands (quick) / hundreds of thousands (thorough) of generated recipes in every overlap pattern with 0-8 required sets and lengths to 4096 are compared exactly (integer count) and to float32 precision (entropy).",
+         "Trusts the verif hook VerifCount (buildCharacterList + n()) and math/big.", "4/C07"),
+ "C08": ("exploration", "reference-formula monitor plus determinism monitor over 64 in-process constructions/permutations and 4 fresh child processes per input",
+         "Entropy() of generated wordlist recipes is compared with the documented formula and must be bit-identical over repeated constructions, permutations, repetitions and processes.",
+         "Separator entropy taken as what the separator function declares (observed).", "4/C08"),
+ "C10": ("exploration", "reference-normalisation monitor; kept words read out through Generate with index scripts; before/after snapshot of the caller's slice; 64 constructions per input",
+         "Thousands of hostile inputs (twins, chains, digraphs, caseless, empty string, duplicates) x 64 constructions/permutations each, plus both shipped lists, compared with the reference normalisation.",
+         "strings.Title as the title-casing; list order read out through the public API.", "4/C10"),
+ "C11": ("exploration", "round-trip monitor MakeIndices -> Tokenize on generated and Tokenize-constructed token sequences vs the documented size rule",
+         "Tens of thousands of passwords from hostile character and wordlist recipes (non-ASCII, 254/255/256-character words, byte length > 255 with <= 255 characters) and sequences only Tokenize can construct are round-tripped and their index size checked.",
+         "Token length counted in characters.", "4/C11"),
+ "C12": ("exploration", "total-function monitor: Tokenize on ~1M (quick) / 20M (thorough) hostile (string, index, entropy) triples vs a decoder specification; panics recovered and judged",
+         "Every index length 0..12 in both parities, every kind byte, biased bodies, mutated valid indices, invalid UTF-8 and long strings; each result compared with the decoder specification.",
+         "Decoder specification in harness/oracle (RefTokenize).", "4/C12"),
+ "C13": ("exploration", "reference-model monitor for refusal (exact rational success probability vs threshold), scripted all-attempts-fail and recover-after-k-failures streams, malformed recipe shapes",
+         "Thousands of recipes around the refusal threshold under default and modified knobs: refusal and acceptance directions on scripted streams, SuccessProbability() vs the exact fraction, attempt budget, no panic on any malformed recipe shape of either kind.",
+         "1% band around the threshold and recipes with an emptied required set not judged for must-not-refuse.", "4/C13"),
 }
 PENDING = {}
 ALL = ["C%02d" % i for i in range(1, 19)]
